@@ -34,6 +34,38 @@ def _is_invert(e):
     return None
 
 
+def check_exact_lookup(p, report, rule):
+    enc = p.get_class("ExtLabelEncoder")
+    tf = enc.methods.get("transform") if enc else None
+    if tf is None:
+        raise AnalysisError("ExtLabelEncoder.transform vanished")
+    stores = [n for n in ast.walk(tf.node) if isinstance(n, ast.Assign) and isinstance(n.targets[0], ast.Subscript)
+              and not (isinstance(n.value, ast.Constant)) and not (isinstance(n.value, ast.UnaryOp))]
+    k = 0
+    for n in stores:
+        v = n.value
+        defs = [v]
+        if isinstance(v, ast.Name):
+            defs = [d.value for d in ast.walk(tf.node) if isinstance(d, ast.Assign)
+                    and any(isinstance(t, ast.Name) and t.id == v.id for t in d.targets)]
+        via_le = any(isinstance(c, ast.Call) and isinstance(c.func, ast.Attribute) and c.func.attr == "transform"
+                     and "_le" in ast.unparse(c.func.value) for d in defs for c in ast.walk(d))
+        via_ss = any(isinstance(c, ast.Call) and c01.callname(c) in ("searchsorted", "np.searchsorted", "digitize")
+                     for d in defs for c in ast.walk(d))
+        if not via_le and not via_ss:
+            continue
+        checked = any(isinstance(c, ast.Compare) and len(c.ops) == 1 and isinstance(c.ops[0], (ast.NotEq, ast.Eq))
+                      and "classes_[" in ast.unparse(c).replace(" ", "") for c in ast.walk(tf.node))
+        ok = via_le or checked
+        k += 1
+        report.add(rule, tf.qual, f"codes `{norm_stmt(n, 60)}` come from an exact lookup", f"{tf.file}:{n.lineno}", ok,
+                   detail="LabelEncoder.transform" if via_le else ("searchsorted with equality check" if checked else
+                   "searchsorted gives the INSERTION position: a label that is not a class but lies between two classes is "
+                   "silently encoded as the next larger class"))
+    if k == 0:
+        raise AnalysisError("ExtLabelEncoder.transform: store of the codes not found")
+
+
 def run(p, report, tier):
     report.rule("R16.1", "is_labeled is the inversion of is_unlabeled with y and missing_label forwarded unchanged; "
                 "labeled_indices / unlabeled_indices are np.argwhere of the respective predicate with both arguments "
@@ -231,6 +263,11 @@ def run(p, report, tier):
         da = DefiniteAssignment(_it(fn.node)).run()
         report.add("R1.7", fn.qual, "all locals bound before use", f"{fn.file}:{fn.node.lineno}", not da.reports,
                    detail="; ".join(f"{k} unbound" for k in da.reports))
+    # ---- R16.9 (round 5): exact code lookup
+    report.rule("R16.9", "transform maps labels to codes by an EXACT lookup: the codes stored for the labeled entries come "
+                "from the fitted LabelEncoder's transform (which raises on a label that is no class); a searchsorted "
+                "lookup is only accepted together with an equality check of classes_[codes] against the labels", floor=1)
+    check_exact_lookup(p, report, "R16.9")
     # ---- R16.8 (round 5): the encoder never writes into what it is given
     report.rule("R16.8", "ExtLabelEncoder.fit / transform / inverse_transform never write into the array they are given "
                 "(`astype(..., copy=False)` / `np.asarray` return the caller's array itself when no conversion is needed): "
